@@ -229,6 +229,12 @@ def build_graph(case, idmap=None, shift=None, negq=(), info_scale=1.0, split=Non
                 raise ValueError(e['cls'])
     if edge_order is not None:
         es = [es[i] for i in edge_order(len(es))]
+    if _bg[0] % 4 == 3 and all(abs(v.id) < 2 ** 62 for v in vs):
+        # argument forms of ids: numpy integers as vertex ids, tuples / integer arrays as an edge's list of ids
+        for v in vs:
+            v.id = np.int64(v.id)
+        for j, e in enumerate(es):
+            e.vertex_ids = tuple(e.vertex_ids) if j % 2 else np.array(e.vertex_ids, dtype=np.int64)
     if _bg[0] % 3 == 0:
         # History dimension: the edge objects were used before, in another Graph over other Vertex objects with the same ids (and other
         # values); the new Graph must evaluate them on ITS vertices.
